@@ -1746,3 +1746,144 @@ V('C06', 'expiry-boundary-inclusive', ADD, "            if ts is not None and ts
 V('C06', 'expiry-zero-restored', ADD, "            if exp <= 0.0:\n                return", "            if exp < 0.0:\n                return", 'R06.7')
 V('C06', 'expiry-none-means-never', ADD, "        if (exp := self.expiration) is not None:", "        if (exp := self.expiration or 0.0) is not None:", 'R06.7')
 E('C06', 'expiry-test-rewritten', ADD, "            if ts is not None and ts + exp < time.time():", "            if ts is not None and time.time() - exp > ts:")
+
+# ---- round-2 seeds: new obligations and their variants
+V('C01', 'undef-check-after-no-change-exit', BLK, '''        if value is UNDEF:
+            raise ValueError("Output value must not be <UNDEF>")
+        if previous == value:
+            return False
+''', '''        if previous == value:
+            return False
+        if value is UNDEF:
+            raise ValueError("Output value must not be <UNDEF>")
+''', 'R01.7')
+V('C05', 'undef-check-after-no-change-exit', BLK, '''        if value is UNDEF:
+            raise ValueError("Output value must not be <UNDEF>")
+        if previous == value:
+            return False
+''', '''        if previous == value:
+            return False
+        if value is UNDEF:
+            raise ValueError("Output value must not be <UNDEF>")
+''', 'R05.6')
+V('C01', 'xor-arithmetic-sum', CB, "func=lambda inputs: bool(sum(1 for v in inputs if v) % 2),", "func=lambda inputs: bool(sum(inputs) % 2),", 'R01.12')
+E('C01', 'xor-count-by-len', CB, "func=lambda inputs: bool(sum(1 for v in inputs if v) % 2),", "func=lambda inputs: bool(len([v for v in inputs if v]) % 2),")
+V('C01', 'enqueue-after-output-events', BLK, '''            self.circuit.sblock_queue.put_nowait(self)
+            for event in self._output_events:
+                event.send(self, trigger='output', previous=previous, value=value)
+''', '''            for event in self._output_events:
+                event.send(self, trigger='output', previous=previous, value=value)
+            self.circuit.sblock_queue.put_nowait(self)
+''', 'R01.6')
+V('C10', 'enqueue-after-output-events', BLK, '''            self.circuit.sblock_queue.put_nowait(self)
+            for event in self._output_events:
+                event.send(self, trigger='output', previous=previous, value=value)
+''', '''            for event in self._output_events:
+                event.send(self, trigger='output', previous=previous, value=value)
+            self.circuit.sblock_queue.put_nowait(self)
+''', 'R10.6')
+V('C02', 'identity-shortcut-in-change-test', BLK, '''        if previous == value:
+            return False
+        self.log_debug("output: %s -> %s", previous, value)''', '''        if previous is value or previous == value:
+            return False
+        self.log_debug("output: %s -> %s", previous, value)''', 'R02.2')
+E('C02', 'change-test-not-equal-form', BLK, '''        if previous == value:
+            return False
+        self.log_debug("output: %s -> %s", previous, value)''', '''        if not previous != value:
+            return False
+        self.log_debug("output: %s -> %s", previous, value)''')
+V('C04', 'timer-for-passed-through-state', FSM, '''                if self._next_event:
+                    continue
+                try:
+                    timed_event = self._ct_timed_event[newstate]
+                except KeyError:
+                    pass    # new state is not a timed state
+                else:
+                    with self._enable_event:    # type: ignore[attr-defined]
+                        self._start_timer(data.get('duration'), timed_event)
+                    if self._next_event:
+                        continue
+                break
+''', '''                try:
+                    timed_event = self._ct_timed_event[newstate]
+                except KeyError:
+                    pass    # new state is not a timed state
+                else:
+                    with self._enable_event:    # type: ignore[attr-defined]
+                        self._start_timer(data.get('duration'), timed_event)
+                if not self._next_event:
+                    break
+''', 'R04.11')
+V('C04', 'timer-cond-reads-output', 'edzed/blocklib/fsms.py', "        return self._restartable or self._state != 'on'", "        return self._restartable or not self._output", 'R04.12')
+E('C04', 'timer-cond-state-membership', 'edzed/blocklib/fsms.py', "        return self._restartable or self._state != 'on'", "        return self._restartable or not self._state == 'on'")
+V('C06', 'purge-skipped-without-persistent-blocks', SIM, '''        if self.persistent_dict is None:
+            if persistent_blocks:
+                _logger.warning("No data storage, state persistence unavailable")
+                for blk in persistent_blocks:
+                    blk.persistent = False
+            return
+''', '''        if not persistent_blocks:
+            return
+        if self.persistent_dict is None:
+            _logger.warning("No data storage, state persistence unavailable")
+            for blk in persistent_blocks:
+                blk.persistent = False
+            return
+''', 'R06.8')
+V('C07', 'overhead-updated-before-jump-test', CRON, '''                    if reset.OR((step == 2 and sleeptime > 0) or diff > _TT_ERROR):
+                        break
+                    if step == 1 and not short_sleep and not -_TT_OK <= sleeptime <= 0:
+                        overhead -= (sleeptime + _TT_OK/2) * 0.5    # average of new and old
+''', '''                    if step == 1 and not short_sleep and not -_TT_OK <= sleeptime <= 0:
+                        overhead -= (sleeptime + _TT_OK/2) * 0.5    # average of new and old
+                    if reset.OR((step == 2 and sleeptime > 0) or diff > _TT_ERROR):
+                        break
+''', 'R07.7')
+V('C09', 'pending-cancel-absorbed-only-after-exception', SIM, """            if self._error is None:
+                self._error = err
+
+        # Normally when a function from the try-except clause above calls abort(), the
+        # abort() sets the self._error and cancels the task. The exception clause then
+        # catches the cancellation.
+        # But when a function calls abort() and also raises, the exception clause
+        # catches the exception and the cancellation is left pending. For this
+        # special edge case we must add a second except clause below.
+        try:
+            await asyncio.sleep(0)  # allow delivery of pending CancelledError if any
+        except asyncio.CancelledError:
+            pass
+""", """            if self._error is None:
+                self._error = err
+            try:
+                await asyncio.sleep(0)  # allow delivery of pending CancelledError if any
+            except asyncio.CancelledError:
+                pass
+""", 'R09.2')
+V('C08', 'pending-cancel-absorbed-only-after-exception', SIM, """            if self._error is None:
+                self._error = err
+
+        # Normally when a function from the try-except clause above calls abort(), the
+        # abort() sets the self._error and cancels the task. The exception clause then
+        # catches the cancellation.
+        # But when a function calls abort() and also raises, the exception clause
+        # catches the exception and the cancellation is left pending. For this
+        # special edge case we must add a second except clause below.
+        try:
+            await asyncio.sleep(0)  # allow delivery of pending CancelledError if any
+        except asyncio.CancelledError:
+            pass
+""", """            if self._error is None:
+                self._error = err
+            try:
+                await asyncio.sleep(0)  # allow delivery of pending CancelledError if any
+            except asyncio.CancelledError:
+                pass
+""", 'R08.2')
+V('C10', 'counter-reset-in-helper-called-in-burst', SIM, '''            while not queue.empty():
+                sblk = queue.get_nowait()
+                eval_set |= sblk.oconnections
+''', '''            while not queue.empty():
+                sblk = queue.get_nowait()
+                eval_cnt = 0
+                eval_set |= sblk.oconnections
+''', 'R10.2')
